@@ -177,8 +177,34 @@ func c08Suggest(g *Gen) {
 	}
 }
 
+// c08StrategyK: single calls of the continued-fraction strategies' K (`c08k` lines), compared by the
+// driver with the model and, for binary / co_binary / dichotomic, with the functions translated from contfrac.go.
+func c08StrategyK(g *Gen) {
+	for i := 0; i < g.pick(2000, 20000); i++ {
+		n := g.R.Bits(1 + g.R.Intn(g.pick(14, 18)))
+		if i%7 == 0 {
+			n = g.R.Bits(1 + g.R.Intn(200))
+		}
+		for _, st := range contfrac.Strategies {
+			if !st.Singleton() && n.BitLen() > 12 {
+				continue // total proposes n-2 values
+			}
+			var ks []*big.Int
+			res := ""
+			if pn := safe(func() { ks = st.K(n) }); pn != "" {
+				res = "panic"
+			} else {
+				res = encInts(ks)
+			}
+			g.Line("c08k", st.String(), n.String(), res)
+			g.Count("strategy-k-" + st.String())
+		}
+	}
+}
+
 func genC08(g *Gen) {
 	c08Suggest(g)
+	c08StrategyK(g)
 	all := append(append([]string{}, c08Log...), c08Small...)
 	for _, code := range all {
 		for _, ts := range [][]int64{{1}, {5}, {2}, {3, 17}, {1, 5}, {5, 9}, {30, 3, 18}, {7, 3}, {13, 4, 13}, {11}, {23, 11}} {
